@@ -443,7 +443,7 @@ func (parser *Parser) findMissingIncludes(seenFiles map[string]*SourceFile,
 	for _, t := range neededTypes {
 		types = append(types, t)
 	}
-	for c := range neededCallables {
+	for _, c := range sortedKeys(neededCallables) {
 		errs = append(errs, fmt.Errorf(
 			"Could not find a definition for a stage or pipeline %s",
 			c))
